@@ -95,7 +95,9 @@ func (c *mockConn) Write(b []byte) (int, error) {
 		return 0, net.ErrClosed
 	}
 	f := c.fault
-	c.fault = "-"
+	if !strings.HasPrefix(f, "S") {
+		c.fault = "-" // one-shot faults; "S<k>" stays: a connection that takes at most k bytes per call, without error
+	}
 	c.attempt = append(c.attempt, b...)
 	n, st := len(b), "ok"
 	var err error
@@ -503,6 +505,29 @@ func (t *tcpRun) execSend(op *ttree, name string) string {
 				resp = ack(ch)
 			case respMode == "other":
 				resp = ack([]byte("another-chunk-id"))
+			case respMode == "caseflip": // the right id with the case of its letters flipped
+				id := append([]byte{}, ch...)
+				for i, c := range id {
+					if c >= 'a' && c <= 'z' {
+						id[i] = c - 32
+					} else if c >= 'A' && c <= 'Z' {
+						id[i] = c + 32
+					}
+				}
+				resp = ack(id)
+			case respMode == "caseflip1": // one letter only
+				id := append([]byte{}, ch...)
+				for i, c := range id {
+					if c >= 'a' && c <= 'z' {
+						id[i] = c - 32
+						break
+					}
+				}
+				resp = ack(id)
+			case respMode == "padless": // the id without its base64 padding
+				resp = ack(bytes.TrimRight(ch, "="))
+			case respMode == "spaced": // the id with a trailing space
+				resp = ack(append(append([]byte{}, ch...), ' '))
 			case respMode == "prefix": // an id that merely starts with the right one
 				resp = ack(append(append([]byte{}, ch...), 'x'))
 			case respMode == "emptymap":
@@ -581,7 +606,11 @@ func runSeq(args []string) ([]string, string) {
 	w := &tcpWorld{}
 	opts := client.ConnectionOptions{Factory: &mockFactory{w}}
 	var key []byte
-	if cfgT.kids[0].atom != "-" {
+	if cfgT.kids[0].atom == "e" {
+		// a configured key of length zero: not nil, so the handshake is required like with any other key
+		key = []byte{}
+		opts.AuthInfo = client.AuthInfo{SharedKey: key}
+	} else if cfgT.kids[0].atom != "-" {
 		key = unhx(cfgT.kids[0].atom)
 		if key == nil {
 			key = []byte{}
